@@ -140,7 +140,8 @@ impl<'a> From<&'a Url> for Origin<'a> {
 impl Display for Origin<'_> {
     fn fmt(&self, f: &mut std::fmt::Formatter<'_>) -> std::fmt::Result {
         match self {
-            Origin::Web(url) => write!(f, "{}", url.as_str().trim_end_matches('/')),
+            // The origin of the URL: its scheme, host and port, without any path, query or credentials
+            Origin::Web(url) => write!(f, "{}", url.origin().ascii_serialization()),
             #[cfg(feature = "android-asset-validation")]
             Origin::Android(target_link) => {
                 write!(
